@@ -47,7 +47,19 @@ def ord1(ctx, lib, reach):
             n = callee_name(t) or ""
             if re.match(r"^<std::collections::Hash(?:Set|Map)<.*> as std::fmt::Debug>::fmt$", n):
                 ctx.violation(rid, (b.path, n), "Debug-formats a hash collection: output order depends on the hash seed", b.loc(t.get("line")))
-    ctx.floor(rid, "hash-ordered iterator sources reachable from build()", nsrc, 8)
+    # consistency of the two recognisers: calls that by *name* create a hash iterator must have been recognised by *type*
+    by_name = 0
+    for b in lib.bodies:
+        if b.path not in reach:
+            continue
+        for bi, t in b.calls():
+            n = callee_name(t) or ""
+            if re.search(r"std::collections::Hash(?:Set|Map)::<.*>::(?:iter|iter_mut|into_iter|keys|values|drain|intersection|difference|union|symmetric_difference)$", n) \
+                    or re.search(r"^<&(?:mut )?std::collections::Hash(?:Set|Map)<.*> as std::iter::IntoIterator>::into_iter$", n):
+                by_name += 1
+    ctx.extra["hash_iterator_sources"] = {"by_type": nsrc, "by_callee_name": by_name}
+    if by_name > nsrc:
+        ctx.anchor_lost(rid, "type-based recognition of hash iterators (%d creation calls by name, %d recognised by type)" % (by_name, nsrc))
 
 
 def tie_exception(lib, body, site):
